@@ -114,11 +114,13 @@ class DBusClientConnection (txdbus.protocol.BasicDBusProtocol):
         for cb in self._dcCallbacks:
             cb(self, reason)
 
-        for d, timeout in self._pendingCalls.values():
+        # an errback may issue a new call (a caller retrying): it must not
+        # change the table that is being walked
+        pending, self._pendingCalls = self._pendingCalls, {}
+        for d, timeout in pending.values():
             if timeout:
                 timeout.cancel()
             d.errback(reason)
-        self._pendingCalls = {}
 
         self.objHandler.connectionLost(reason)
 
